@@ -256,7 +256,7 @@ func (fr *Frame) applyContract(st *State, fc *FuncContract, key string, callee *
 		}
 	}
 	pkg := vc.prog.typesPkgByName(fc.Pkg)
-	env := &Env{vc: vc, st: st, old: st, vars: vars, pkg: pkg}
+	env := &Env{vc: vc, st: st, old: st, vars: vars, pkg: pkg, pkgName: fc.Pkg}
 	cond := fr.curCond
 	// receiver non-nil (implicit precondition of pointer-receiver methods of the repository)
 	if callee != nil && callee.Signature.Recv() != nil && len(args) > 0 {
@@ -314,7 +314,7 @@ func (fr *Frame) applyContract(st *State, fc *FuncContract, key string, callee *
 		pvars[k] = v
 	}
 	bindResults(pvars, rnames, results)
-	penv := &Env{vc: vc, st: st, old: pre, vars: pvars, pkg: pkg}
+	penv := &Env{vc: vc, st: st, old: pre, vars: pvars, pkg: pkg, pkgName: fc.Pkg}
 	for _, c := range clausesFor(fc.Ensures, view) {
 		t, err := penv.EvalBool(c.E)
 		if err != nil {
@@ -456,7 +456,7 @@ func (fr *Frame) havocTarget(st *State, m Expr, env *Env) (err error) {
 		}
 		return nil
 	case *EIdent:
-		if g := vc.prog.ghostGlobal(x.Name, env.pkg); g != nil {
+		if g := vc.prog.ghostGlobalIn(x.Name, env.specPkg()); g != nil {
 			t := env.resolveType(g.Type)
 			vc.writeGlobal(st, "G:ghost."+g.Pkg+"."+x.Name, t, vc.freshVal(x.Name, t))
 			return nil
